@@ -202,7 +202,9 @@ func triangles(m modeling.Mesh, attr string, cpu int) (tris [][]int, ex bool) {
 	return
 }
 
-func marchOnce(out *Writer, c Case, cv *marching.MarchingCanvas, what string, attr, cut2, procs int, par bool) {
+// marchOnce returns false when the call did not return within caseLimit (the
+// goroutine is left behind, so the process must not continue).
+func marchOnce(out *Writer, c Case, cv *marching.MarchingCanvas, what string, attr, cut2, procs int, par bool) bool {
 	name := attrName(attr)
 	var m modeling.Mesh
 	if procs > 0 {
@@ -216,7 +218,13 @@ func marchOnce(out *Writer, c Case, cv *marching.MarchingCanvas, what string, at
 			m = cv.MarchOnAttribute(name, float64(cut2)/2)
 		}
 	})
-	<-done
+	select {
+	case <-done:
+	case <-time.After(caseLimit):
+		// a marching call that never returns is an observation, not a harness failure
+		out.Encode(marchLine{K: "march", What: what, Attr: attr, Cut2: cut2, Proc: procs, Tris: [][]int{}, St: "TIMEOUT", Ex: true})
+		return false
+	}
 	line := marchLine{K: "march", What: what, Attr: attr, Cut2: cut2, Proc: procs, Tris: [][]int{}, St: *st, Ex: true}
 	if *st == "OK" {
 		func() {
@@ -229,6 +237,7 @@ func marchOnce(out *Writer, c Case, cv *marching.MarchingCanvas, what string, at
 		}()
 	}
 	out.Encode(line)
+	return true
 }
 
 // runField executes one field case: every field is accumulated sequentially
@@ -308,11 +317,17 @@ func runField(out *Writer, c Case, raw json.RawMessage) bool {
 	for _, a := range ids {
 		for _, cut2 := range c.Cuts2 {
 			if !c.NoSeq {
-				marchOnce(out, c, seqCv, "ref", a, cut2, 0, false)
-				marchOnce(out, c, parCv, "fieldpar", a, cut2, 0, false)
+				if !marchOnce(out, c, seqCv, "ref", a, cut2, 0, false) {
+					return false
+				}
+				if !marchOnce(out, c, parCv, "fieldpar", a, cut2, 0, false) {
+					return false
+				}
 			}
 			for _, p := range c.Reps {
-				marchOnce(out, c, seqOr(c, seqCv, parCv), "marchpar", a, cut2, p, true)
+				if !marchOnce(out, c, seqOr(c, seqCv, parCv), "marchpar", a, cut2, p, true) {
+					return false
+				}
 			}
 		}
 	}
